@@ -3,6 +3,7 @@ generated (bounded-exhaustive over small alphabets plus seeded random larger one
 rendered, built by the real code, and every result is judged by TLC against
 Assembler!Run (Trace_Asm)."""
 import copy
+import os
 import itertools
 import json
 import random
@@ -38,7 +39,7 @@ def corrupt(ev):
 
 
 def run_cases(prop, tier, seed, cases, devices, matcher=None, keyf=None, rule="", assumptions=(), extra_cov=None,
-              exhaustive=False, module="Trace_Asm", chunk=None, mc=None, dedupe=False):
+              exhaustive=False, module="Trace_Asm", chunk=None, mc=None, dedupe=False, extra=None):
     """Executes cases, has TLC judge them, files rejections as violations / known findings."""
     scratch = Scratch(prop)
     v = Verdict(prop, tier, seed, "model_checking")
@@ -77,6 +78,11 @@ def run_cases(prop, tier, seed, cases, devices, matcher=None, keyf=None, rule=""
             if len(obs.get("code", "")) > 600:
                 obs["code"] = obs["code"][:600] + "..."
             v.reject({"tag": c.tag, "source": c.src, "prog": clean(c.prog), "observed": obs, "expected": rejected[i]}, matcher)
+        if extra:
+            cov2, stats2 = extra(v, scratch)
+            extra_cov = dict(extra_cov or {}, **cov2)
+            stats["states"] += stats2["states"]
+            stats["transitions"] += stats2["transitions"]
         if keyf:
             v.summary(keyf)
         srcs = {c.src for c in all_cases}
@@ -885,15 +891,75 @@ def check_c12(prop, tier, seed, devices):
     cases.append(Case([instr("nop"), line("device", n="ATmega8"), instr("nop")], tag="device-after-code"))
     for name in sorted(devices):
         cases.append(Case([line("device", n=name), instr("nop"), seg("data"), byte(0)], tag="sizes"))
-    part = partfile_events(devices)
-    return run_cases(prop, tier, seed, cases, devices, keyf=default_key, exhaustive=True,
+    return run_cases(prop, tier, seed, cases, devices, keyf=default_key, exhaustive=True, extra=partfile_check(devices),
                      rule="every device of the table (and none) x {flash, EEPROM, RAM} x {capacity-1, capacity, capacity+1} reached by "
-                          "instructions, data, reservations and .org; unknown device; second device; reported sizes for every device",
-                     extra_cov=part)
+                          "instructions, data, reservations and .org; unknown device; second device; reported sizes for every device; "
+                          "every shipped part-definition file with a table row x the memory figures it declares")
 
 
-def partfile_events(devices):
-    return {}
+PART_EQU = __import__("re").compile(r"^\s*\.equ\s+(\w+)\s*=\s*(0x[0-9a-fA-F]+|\$[0-9a-fA-F]+|\d+)", __import__("re").I)
+PART_DEV = __import__("re").compile(r"^\s*\.device\s+(\w+)", __import__("re").I)
+
+
+def scan_part_files():
+    """Independent scanner of the shipped part-definition files: a regular expression over
+    `.equ NAME = value` and `.device NAME` (the files are not run through the assembler)."""
+    import glob
+    out = {}
+    for path in sorted(glob.glob(os.path.join(REPO, "includes", "*def.inc"))):
+        name, eq = None, {}
+        with open(path, encoding="latin-1") as f:
+            for ln in f:
+                m = PART_DEV.match(ln)
+                if m:
+                    name = m.group(1)
+                m = PART_EQU.match(ln)
+                if m and m.group(1).upper() == "FLASHEND" and "word" not in ln.lower():
+                    continue    # the unit of FLASHEND is only taken from a file that states it ("Note: Word address")
+                if m:
+                    v = m.group(2)
+                    eq.setdefault(m.group(1).upper(), int(v[2:], 16) if v.lower().startswith("0x") else int(v[1:], 16) if v.startswith("$") else int(v))
+        if not name:
+            continue
+        fig, has = {"flash": 0, "ramstart": 0, "ramsize": 0, "eeprom": 0}, []
+        if "FLASHEND" in eq:
+            fig["flash"] = eq["FLASHEND"] + 1
+            has.append("flash")
+        if "SRAM_START" in eq:
+            fig["ramstart"] = eq["SRAM_START"]
+            has.append("ramstart")
+        if "SRAM_SIZE" in eq:
+            fig["ramsize"] = eq["SRAM_SIZE"]
+            has.append("ramsize")
+        if "E2END" in eq:
+            fig["eeprom"] = eq["E2END"] + 1 if eq["E2END"] > 0 else 0
+            has.append("eeprom")
+        out[name] = (os.path.basename(path), fig, has)
+    return out
+
+
+def partfile_check(devices):
+    def run(v, scratch):
+        parts = scan_part_files()
+        events, names = [], []
+        for name, (fname, fig, has) in sorted(parts.items()):
+            if name in devices:
+                d = devices[name]
+                events.append({"name": name, "row": {k: d[k] for k in ("flash", "ramstart", "ramsize", "eeprom")}, "file": fig, "has": has})
+                names.append((name, fname))
+        can = [dict(events[0], file=dict(events[0]["file"], flash=events[0]["file"]["flash"] + 1))]
+        rejected, stats = validate_events(events + can, "Trace_Dev", scratch)
+        if len(events) not in rejected:
+            raise ToolError("binding self-test failed: a corrupted part-file figure was accepted")
+        for i in sorted(rejected):
+            if i < len(events):
+                e = events[i]
+                v.reject({"tag": "part-file", "source": ".device %s ; %s" % names[i], "prog": [], "observed": {"r": "row", "row": e["row"]},
+                          "expected": {"ok": False, "phase": "part-file", "file": e["file"], "declares": e["has"]}}, None)
+        return {"part_files_scanned": len(parts), "part_files_with_a_table_row": len(events),
+                "part_file_figures_compared": sum(len(e["has"]) for e in events),
+                "part_file_rows_disagreeing": len([i for i in rejected if i < len(events)])}, stats
+    return run
 
 
 CHECKS["C12"] = check_c12
